@@ -200,7 +200,9 @@ pub(crate) fn c06_part_oracle(p: &PartCase, st: &mut Stats) -> Verdict {
 }
 
 pub fn part_case(inv: bool) -> BoxedStrategy<PartCase> {
-    prop_oneof![2 => gen::chunk_spec(inv).prop_map(PartCase::Chunk), 2 => gen::item_spec(inv).prop_map(PartCase::Item), 1 => gen::fci_spec(inv).prop_map(PartCase::Fci)].boxed()
+    // FCI builders also implement the writer trait, but C06 / C17 name packet, compound, SDES-chunk and SDES-item
+    // builders: `PartCase::Fci` is kept for replay files only and is not generated
+    prop_oneof![gen::chunk_spec(inv).prop_map(PartCase::Chunk), gen::item_spec(inv).prop_map(PartCase::Item)].boxed()
 }
 
 pub const ITEM_SWEEP_N: u64 = 258 + 7 * 257;
@@ -390,6 +392,14 @@ fn near_a_limit(p: &PacketSpec) -> bool {
 }
 
 pub(crate) fn c16_oracle(c: &BuildCase, st: &mut Stats) -> Verdict {
+    if let PacketSpec::Compound(m) = &c.spec {
+        if ambiguous(m) {
+            // an empty nested compound in last position after a padded sibling: which member is "the last" is not
+            // settled (the same class C14 leaves out)
+            st.label("excluded:empty-nested-compound-after-padded-sibling");
+            return Ok(());
+        }
+    }
     let name = c.spec.long_name();
     let rules = violations(&c.spec);
     st.label(&name);
@@ -526,7 +536,7 @@ pub fn c16(tier: Tier) -> Check {
 
 const LISTS: u64 = 601; // list sizes 0..=600: past 256+31, where a count truncated to 8 bits aliases a legal one
 const LENS: u64 = 801; // text lengths 0..=800: past 512+255
-const LIMIT_SWEEP_N: u64 = 256 + 256 + 4 * LISTS + 2 * LENS + 4 * LENS + 256 * 10 + 10 + 8 + 12 + 2 * 81;
+const LIMIT_SWEEP_N: u64 = 256 + 256 + 4 * LISTS + 2 * LENS + 8 * LENS + 256 * 10 + 10 + 8 + 12 + 2 * 81;
 
 /// count/subtype 0..=255; list sizes 0..=600; reason / value lengths 0..=800; PRIV splits; RPSI pt x bits;
 /// cumulative lost around 2^24; APP names; payload alignments; APP / unknown payload length x padding residues
@@ -565,16 +575,16 @@ fn limit_sweep(mut i: u64) -> BuildCase {
         return mk(PacketSpec::Sdes(SdesSpec { chunks: vec![ChunkSpec { ssrc: 4, items: vec![ItemSpec { ty: 2, prefix: vec![], value: "y".repeat(i as usize) }] }], padding: 0 }));
     }
     i -= LENS;
-    if i < 4 * LENS {
-        // PRIV: prefix length from {0, 1, 127, 200} x value length 0..=800
-        let prefix = [0usize, 1, 127, 200][(i / LENS) as usize];
+    if i < 8 * LENS {
+        // PRIV: prefix length from {0, 1, 127, 200, 253, 254, 255, 256} x value length 0..=800
+        let prefix = [0usize, 1, 127, 200, 253, 254, 255, 256][(i / LENS) as usize];
         let value = (i % LENS) as usize;
         return mk(PacketSpec::Sdes(SdesSpec {
             chunks: vec![ChunkSpec { ssrc: 5, items: vec![ItemSpec { ty: 8, prefix: vec![0x11; prefix], value: "w".repeat(value) }] }],
             padding: 0,
         }));
     }
-    i -= 4 * LENS;
+    i -= 8 * LENS;
     if i < 256 * 10 {
         let pt = (i % 256) as u8;
         let bits = (i / 256) as u8;
@@ -683,6 +693,78 @@ pub(crate) fn c17_oracle(c: &BuildCase, st: &mut Stats) -> Verdict {
     Ok(())
 }
 
+/// `SdesChunkBuilder::write_into` / `SdesItemBuilder::write_into` are hand-written (not the blanket one): the same
+/// three clauses for them - defined bytes, nothing beyond n, nothing at all on failure
+pub(crate) fn c17_part_oracle(p: &PartCase, st: &mut Stats) -> Verdict {
+    let name = match p {
+        PartCase::Chunk(_) => "SdesChunkBuilder",
+        PartCase::Item(_) => "SdesItemBuilder",
+        PartCase::Fci(_) => return Ok(()),
+    };
+    st.label(name);
+    let write = |buf: &mut [u8]| -> Result<Result<usize, WErr>, Caught> {
+        match p {
+            PartCase::Chunk(c) => {
+                let b = chunk(c);
+                step("SdesChunkBuilder::write_into");
+                guard(|| werr(b.write_into(buf)))
+            }
+            PartCase::Item(i) => {
+                let b = item(i);
+                step("SdesItemBuilder::write_into");
+                guard(|| werr(b.write_into(buf)))
+            }
+            PartCase::Fci(_) => unreachable!(),
+        }
+    };
+    let n = match write(&mut []) {
+        Ok(Err(WErr::OutputTooSmall(n))) => Some(n),
+        Ok(Ok(n)) => Some(n),
+        _ => None,
+    };
+    let lens: Vec<usize> = match n {
+        Some(n) => {
+            let mut v = vec![n, n + 1, n + 7];
+            if n > 0 {
+                v.push(n - 1);
+                v.push(n / 2);
+            }
+            v
+        }
+        None => vec![0, 9, 600],
+    };
+    for l in lens {
+        let (pa, pb) = (prefill(l, false), prefill(l, true));
+        let (mut a, mut b) = (pa.clone(), pb.clone());
+        let (ra, rb) = match (write(&mut a), write(&mut b)) {
+            (Ok(x), Ok(y)) => (x, y),
+            (Err(cg), _) | (_, Err(cg)) => fail!(format!("C17:{name}:panic:write_into"), "write_into(buffer of {l}) panicked: {}", cg.message),
+        };
+        ensure!(ra == rb, format!("C17:{name}:result-depends-on-buffer-contents"), "write_into(buffer of {l}) = {ra:?} with one prefill and {rb:?} with the other");
+        match ra {
+            Ok(m) => {
+                ensure!(m <= l, format!("C17:{name}:reports-more-than-buffer"), "write_into(buffer of {l}) = Ok({m})");
+                st.nontrivial();
+                if let Some(off) = (0..m).find(|&i| a[i] != b[i]) {
+                    fail!(format!("C17:{name}:byte-not-defined"), "byte {off} of the {m} reported as written depends on the buffer's previous contents; image A {}", hex(&a[..m]));
+                }
+                if let Some(off) = (m..l).find(|&i| a[i] != pa[i] || b[i] != pb[i]) {
+                    fail!(format!("C17:{name}:wrote-beyond-n"), "write_into(buffer of {l}) = Ok({m}) but byte {off} beyond n was changed");
+                }
+            }
+            Err(e) => {
+                if l > 0 {
+                    st.nontrivial();
+                }
+                if let Some(off) = (0..l).find(|&i| a[i] != pa[i] || b[i] != pb[i]) {
+                    fail!(format!("C17:{name}:failed-write-modified-buffer"), "write_into(buffer of {l}) = Err({e:?}) but byte {off} of the buffer was changed");
+                }
+            }
+        }
+    }
+    Ok(())
+}
+
 pub fn c17(tier: Tier) -> Check {
     Check {
         property: "C17",
@@ -693,6 +775,7 @@ pub fn c17(tier: Tier) -> Check {
         legs: vec![
             Box::new(RandomLeg { name: "random-configs", cases: tier.pick(250_000, 3_600_000), make: Box::new(any_build_case), oracle: c17_oracle }),
             Box::new(RandomLeg { name: "valid-configs", cases: tier.pick(200_000, 2_400_000), make: Box::new(valid_build_case), oracle: c17_oracle }),
+            Box::new(RandomLeg { name: "sdes-chunk-and-item-builders", cases: tier.pick(100_000, 900_000), make: Box::new(|| part_case(true)), oracle: c17_part_oracle }),
             Box::new(SweepLeg {
                 name: "every-kind-x-every-padding",
                 n: 64 * KIND_TEMPLATES as u64,
@@ -901,16 +984,57 @@ fn compound_case() -> BoxedStrategy<BuildCase> {
         .boxed()
 }
 
+/// member lists far beyond the sizes the random generator draws: more members than any 5- or 8-bit count holds,
+/// a compound beyond 64 KiB, deep nesting; the last variants pad a non-last / the last member
+fn many_members() -> Vec<BuildCase> {
+    let bye = |k: u32| PacketSpec::Bye(ByeSpec { sources: vec![k], reason: None, padding: 0 });
+    let rr = |k: u32| PacketSpec::Rr(RrSpec { ssrc: k, blocks: vec![], padding: 0 });
+    let app = |words: usize| PacketSpec::App(AppSpec { ssrc: 5, subtype: 1, name: "many".into(), data: vec![0x61; 4 * words], padding: 0 });
+    let mut lists: Vec<Vec<PacketSpec>> = Vec::new();
+    for n in [31usize, 32, 33, 255, 256, 257, 300] {
+        lists.push((0..n).map(|k| if k % 3 == 0 { rr(k as u32) } else { bye(k as u32) }).collect());
+    }
+    // beyond 64 KiB in total, and one member beyond 64 KiB
+    lists.push((0..70).map(|_| app(250)).collect());
+    lists.push(vec![rr(1), app(17_000), bye(2)]);
+    // nesting: 40 nested compounds of 3 members each, and a chain nested 6 deep
+    lists.push((0..40).map(|k| PacketSpec::Compound(vec![rr(k), bye(k), app(2)])).collect());
+    let mut deep = PacketSpec::Compound(vec![bye(9)]);
+    for k in 0..6 {
+        deep = PacketSpec::Compound(vec![rr(k), deep]);
+    }
+    lists.push(vec![deep, bye(1)]);
+    let mut out = Vec::new();
+    for (i, l) in lists.into_iter().enumerate() {
+        let how = How { wrap: i % 2 == 1, probe: i % 3 == 0, ..How::default() };
+        // as it is; last member padded (legal); a middle member padded (must be rejected)
+        out.push(BuildCase { spec: PacketSpec::Compound(l.clone()), how, salt: i as u64 });
+        let mut last_padded = l.clone();
+        if let Some(m) = last_padded.last_mut() {
+            m.set_padding(8);
+        }
+        out.push(BuildCase { spec: PacketSpec::Compound(last_padded), how, salt: i as u64 });
+        let mut mid_padded = l;
+        let at = mid_padded.len() / 2;
+        if mid_padded.len() >= 2 {
+            mid_padded[at].set_padding(4);
+            out.push(BuildCase { spec: PacketSpec::Compound(mid_padded), how, salt: i as u64 });
+        }
+    }
+    out
+}
+
 pub fn c14(tier: Tier) -> Check {
     Check {
         property: "C14",
-        rule: "cases = lists of 0..=6 members of every builder kind (nested compounds to depth 2, third-party writers, invalid members, padding on any member) x construction path; \
+        rule: "cases = lists of 0..=6 members (a fixed list of larger ones: 31..300 members, compounds beyond 64 KiB, nesting 6 deep) of every builder kind (nested compounds to depth 2, third-party writers, invalid members, padding on any member) x construction path; \
                oracle: success <=> every member's own calculate_size succeeds and no non-last member is padded; size == sum; bytes == concatenation of the members' own images \
                (FIR entries as a multiset); Compound::parse + iteration yields one Ok packet per leaf, Debug-equal to Packet::parse of that member's bytes; on Err the error is a member's own \
                or NonLastCompoundPacketPadding. non-trivial = success with >= 2 leaf members",
         assumptions: vec!["not judged: an empty nested compound in last position after a padded sibling ('last member' is ambiguous there); counted in the class histogram"],
         legs: vec![
             Box::new(RandomLeg { name: "random-member-lists", cases: tier.pick(200_000, 2_400_000), make: Box::new(compound_case), oracle: c14_oracle }),
+            Box::new(ListLeg { name: "many-members-and-large-compounds", cases: many_members(), oracle: c14_oracle }),
             Box::new(SweepLeg {
                 name: "pairs-of-kinds-x-padding-position",
                 n: (KIND_TEMPLATES * KIND_TEMPLATES * 4) as u64,
